@@ -9,6 +9,9 @@ table, configured excess) and the switch setting `codeToday`.
   http add <hex160>                Chains.Add of an 80-byte header (model of C01)         → ok <rows> | bad-header
   http dump                        the header store, same rendering as the chain driver   → <row>;<row>…
   http excess <int>                merkleroot.max_block_height_excess                     → ok
+  http fix <switch|all> <0|1>      development aid: override one switch of `codeToday` for this session (trying a patch
+                                   before flipping the definition); names = fields of BHS.Http.Fixes            → ok | bad-args
+  http fixes                       the switch setting in use                                                   → <name>=<0|1> …
   http hook <xurl> <0|1>           put a webhook row (active flag) into the table         → ok
   http req <auth> <handler> <args…>                                                       → <status>|<bodies>|<n>
         auth     disabled | missing | malformed | unknown | user | admin
@@ -101,7 +104,33 @@ def respStr (r : Response) : String :=
   let bs := if r.bodies.isEmpty then "empty" else "+".intercalate (r.bodies.map bodyStr)
   s!"{r.status}|{bs}|{r.bodies.length}"
 
+def setFix (fx : Fixes) (name : String) (v : Bool) : Option Fixes :=
+  match name with
+  | "byHeightValidatesHeight" => some { fx with byHeightValidatesHeight := v }
+  | "commonAncestorRejectsEmpty" => some { fx with commonAncestorRejectsEmpty := v }
+  | "commonAncestorHandlesNil" => some { fx with commonAncestorHandlesNil := v }
+  | "webhookReturnsAfterBindError" => some { fx with webhookReturnsAfterBindError := v }
+  | "verifyBindErrorStructured" => some { fx with verifyBindErrorStructured := v }
+  | "accessGetNoAuthStructured" => some { fx with accessGetNoAuthStructured := v }
+  | "statusWritesJson" => some { fx with statusWritesJson := v }
+  | "noRouteStructured" => some { fx with noRouteStructured := v }
+  | "trailingSlashRedirectOff" => some { fx with trailingSlashRedirectOff := v }
+  | "all" => some ⟨v, v, v, v, v, v, v, v, v⟩
+  | _ => none
+
+def fixesStr (fx : Fixes) : String :=
+  let b (v : Bool) : String := if v then "1" else "0"
+  s!"byHeightValidatesHeight={b fx.byHeightValidatesHeight} commonAncestorRejectsEmpty={b fx.commonAncestorRejectsEmpty} " ++
+  s!"commonAncestorHandlesNil={b fx.commonAncestorHandlesNil} webhookReturnsAfterBindError={b fx.webhookReturnsAfterBindError} " ++
+  s!"verifyBindErrorStructured={b fx.verifyBindErrorStructured} accessGetNoAuthStructured={b fx.accessGetNoAuthStructured} " ++
+  s!"statusWritesJson={b fx.statusWritesJson} noRouteStructured={b fx.noRouteStructured} trailingSlashRedirectOff={b fx.trailingSlashRedirectOff}"
+
 def handle (st : S) : List String → Option (S × String)
+  | ["http", "fix", name, v] =>
+    match setFix st.fx name (decide (v = "1")) with
+    | some fx => some ({ st with fx := fx }, "ok")
+    | none => some (st, "bad-args")
+  | ["http", "fixes"] => some (st, fixesStr st.fx)
   | ["http", "reset"] => some ({ st with env := { st.env with store := [BHS.Header.genesisRow], hooks := [] } }, "ok")
   | ["http", "add", hex] =>
     match (BHS.Sha256.ofHex hex).bind BHS.Header.parse with
